@@ -6,7 +6,7 @@ from harness.tlc import from_atoms
 from harness.props import c01
 
 INV = ['C01_RoundTrip', 'C02_Structure', 'C03_Search', 'OutcomeIsDiagnostic']
-HOSTILE = ['}', '{', ']', '[', '$', '\\a{x}', '\\end{e}', '\\begin{e}', '\\item', '%', 'x\\', '\\a{', '\\]', '\\)', '\\end{itemize}',
+HOSTILE = ['be}', '|}', 'x\x0c}', '}', '{', ']', '[', '$', '\\a{x}', '\\end{e}', '\\begin{e}', '\\item', '%', 'x\\', '\\a{', '\\]', '\\)', '\\end{itemize}',
            '\\end{equation}', '', '\\end{verbatim}', '\\end{lstlisting}',
            '$$', ' c d', '\\begin{verbatim}', '\\[', '\\(', '\\end{Verbatim}', '\\end{verbatimtab}', '\\end{listing}', '\\begin{lstlisting}']
 NAMES = ['end', 'begin', 'item', 'a', 'e', 'verbatim', '\\a{x}', '\\end{e}']
@@ -23,6 +23,10 @@ def check_doc(args, pfx='C10'):
         bad.append((pfx + '-text', {'out': o['out']}))
     if o['abs'] != rec['abs']:
         bad.append((pfx + '-tree-depends-on-payload', {'tree': repr(soup.expr)[:400]}))
+    # tolerance changes nothing on a document that parses strictly (C07 clause 1, evaluated on the same documents)
+    soup1, o1 = D.observe_doc(src, skip, tolerance=1)
+    if o1['o'] != 'ok' or o1['out'] != o['out'] or o1['flat'] != o['flat']:
+        bad.append((pfx + '-tolerant-parse-differs', {'tolerant_outcome': o1['o'], 'tolerant_out': o1.get('out')}))
     for ent in rec['find']:
         if ent['root'] != -1:
             continue
@@ -43,7 +47,7 @@ def scopes(chk):
     common = {'ComPool': HOSTILE if not quick else HOSTILE[:18], 'ExtraQueries': NAMES, 'VerbNames': [], 'Leaves': [], 'Seps': ['']}
     sc = []
     p = dict(common)
-    p.update({'Budget': 4, 'TextPool': ['\n', '\nx', '\r\nx', '\r'], 'MathTextPool': ['x', '\n', '\ny'], 'CmdNames': ['a'], 'EnvNames': ['e'],
+    p.update({'Budget': 4, 'TextPool': ['\n', '\nx', '\r\nx', '\r', '|x'], 'MathTextPool': ['x', '\n', '\ny'], 'CmdNames': ['a', 'verb'], 'EnvNames': ['e'],
               'ListNames': ['itemize'], 'MathKinds': ['$', '$$', '\\(', '\\['], 'MEnvNames': ['equation'], 'Labels': [''], 'MaxSib': 2, 'MaxArgs': 2})
     sc.append(('contexts', p))
     p = dict(common)
